@@ -1,10 +1,2 @@
-//! rtcheck accessors: re-export the accessors of the private sub-modules of prayer_times
-use super::*;
+//! rtcheck accessors: re-export the accessor of the private sub-module hours
 pub(crate) use super::hours::verif_rt_child::*;
-
-pub(crate) fn x_get_imsaak(params: &Params, t: &TopAstroDay, w: Weather) -> Result<PrayerTime, ()> {
-    get_imsaak(params, t, w)
-}
-pub(crate) fn x_get_hours_adj_ext(params: &Params, t: &TopAstroDay, w: Weather) -> std::collections::HashMap<Prayer, Result<PrayerHour, ()>> {
-    get_hours_adj_ext(params, t, w)
-}
